@@ -1,5 +1,6 @@
 import N0Verif.Model.FindAll
 import N0Verif.Proofs.XPathResolve
+import N0Verif.Py.Lemmas
 /-!
   Lemmas about the `findall` model (`Model/FindAll.lean`).
 -/
@@ -271,5 +272,237 @@ theorem fa_exact (re : Bool) : ∀ (p : Pos) (node c : Val) (fl : FL) (ps : PS) 
           ((if fl.isEmpty = true then [[]] else fl).getLast?.getD [] ++ XPath.bracket (intRepr (n : Int)))) = bump fl n := rfl
       rw [hb, this]
       simp only [flPath, flOut]
+
+/-! ## exact paths, string layer -/
+open N0.XPath
+
+theorem PathOk.plain : ∀ {p : Pos} {v c : Val}, PathOk v p c → PlainPos p
+  | [], _, _, _ => trivial
+  | .key _ :: _, _, _, h => by
+    obtain ⟨hk, _, _, _, _, _, hr⟩ := h
+    exact ⟨hk, hr.plain⟩
+  | .idx _ :: _, _, _, h => by
+    obtain ⟨_, _, _, _, _, _, hr⟩ := h
+    exact hr.plain
+
+theorem PathOk.getAt : ∀ {p : Pos} {v c : Val}, PathOk v p c → getAt v p = some c
+  | [], _, _, h => by simp only [PathOk] at h; subst h; rfl
+  | .key k :: _, _, _, h => by
+    obtain ⟨_, cls, kvs, x, rfl, hl, hr⟩ := h
+    simp only [Val.getAt, child, hl, Option.bind_some]
+    exact hr.getAt
+  | .idx n :: _, _, _, h => by
+    obtain ⟨cls, xs, x, rfl, hx, _, hr⟩ := h
+    simp only [Val.getAt, child, hx, Option.bind_some]
+    exact hr.getAt
+
+theorem PlainKey.head_ne {k : Str} (hk : PlainKey k) : ∃ c r, k = c :: r ∧ c ≠ '/' ∧ c ≠ '[' := by
+  cases k with
+  | nil => exact absurd rfl hk.ne
+  | cons c r =>
+    have := plainChar_ne (hk.chars c (by simp))
+    exact ⟨c, r, rfl, this.1, this.2.1⟩
+
+theorem natStr_noLB (n : Nat) : ∀ c ∈ natRepr n, c ≠ '[' := by
+  intro c hc h
+  subst h
+  have := natDigits_all_digit n '[' hc
+  exact absurd this (by decide)
+
+/-! ### `"/".join` along a descent -/
+
+theorem join_snoc (fl : FL) (h : fl ≠ []) (k : Str) : join ['/'] (fl ++ [k]) = join ['/'] fl ++ '/' :: k := by
+  induction fl with
+  | nil => exact absurd rfl h
+  | cons x r ih =>
+    cases r with
+    | nil => simp [join]
+    | cons y r' =>
+      have e1 : join ['/'] (x :: ((y :: r') ++ [k])) = x ++ ['/'] ++ join ['/'] ((y :: r') ++ [k]) :=
+        join_cons_of_ne_nil _ _ _ (by simp)
+      have e2 : join ['/'] (x :: y :: r') = x ++ ['/'] ++ join ['/'] (y :: r') := rfl
+      rw [List.cons_append, e1, ih (by simp), e2]
+      simp
+
+theorem join_snoc_append (init : FL) (l br : Str) :
+    join ['/'] (init ++ [l ++ br]) = join ['/'] (init ++ [l]) ++ br := by
+  induction init with
+  | nil => simp [join]
+  | cons x r ih =>
+    have e1 : join ['/'] (x :: (r ++ [l ++ br])) = x ++ ['/'] ++ join ['/'] (r ++ [l ++ br]) :=
+      join_cons_of_ne_nil _ _ _ (by simp)
+    have e2 : join ['/'] (x :: (r ++ [l])) = x ++ ['/'] ++ join ['/'] (r ++ [l]) :=
+      join_cons_of_ne_nil _ _ _ (by simp)
+    rw [List.cons_append, e1, ih, List.cons_append, e2]
+    simp
+
+theorem bump_ne_nil (fl : FL) (n : Nat) : bump fl n ≠ [] := by simp [bump, setLast]
+
+theorem join_bump (fl : FL) (h : fl ≠ []) (n : Nat) :
+    join ['/'] (bump fl n) = join ['/'] fl ++ bracket (natRepr n) := by
+  have he : fl.isEmpty = false := by cases fl with | nil => exact absurd rfl h | cons _ _ => rfl
+  obtain ⟨init, l, rfl⟩ : ∃ init l, fl = init ++ [l] := ⟨fl.dropLast, fl.getLast h, (List.dropLast_concat_getLast h).symm⟩
+  simp only [bump, he, Bool.false_eq_true, if_false, setLast, List.dropLast_concat, List.getLast?_append,
+    List.getLast?_singleton, Option.some_or, Option.getD_some]
+  exact join_snoc_append init l _
+
+theorem join_flPath : ∀ (p : Pos) (fl : FL), fl ≠ [] → join ['/'] (flPath fl p) = join ['/'] fl ++ renderPos p
+  | [], fl, _ => by simp [flPath, renderPos]
+  | .key k :: rest, fl, h => by
+    rw [flPath, join_flPath rest (fl ++ [k]) (by simp), join_snoc fl h]
+    simp [renderPos, renderSeg]
+  | .idx n :: rest, fl, h => by
+    rw [flPath, join_flPath rest (bump fl n) (bump_ne_nil fl n), join_bump fl h]
+    simp [renderPos, renderSeg, natStr]
+
+/-! ### `replace('/[', '[')` leaves a rendered path alone -/
+
+theorem delSB_append_noSlash (s t : Str) (h : ∀ c ∈ s, c ≠ '/') : delSB (s ++ t) = s ++ delSB t := by
+  induction s with
+  | nil => rfl
+  | cons c s ih =>
+    have hc : c ≠ '/' := h c (by simp)
+    simp only [List.cons_append, delSB, hc, false_and, if_false, ih (fun x hx => h x (by simp [hx]))]
+
+theorem delSB_render : ∀ (p : Pos), PlainPos p → delSB (renderPos p) = renderPos p
+  | [], _ => rfl
+  | .key k :: rest, hp => by
+    obtain ⟨hk, hr⟩ := hp
+    obtain ⟨c, r, rfl, _, hc2⟩ := PlainKey.head_ne hk
+    have : renderPos (.key (c :: r) :: rest) = '/' :: ((c :: r) ++ renderPos rest) := by simp [renderPos, renderSeg]
+    rw [this, delSB]
+    have hh : ((c :: r) ++ renderPos rest).head? ≠ some '[' := by simp [hc2]
+    simp only [hh, and_false, if_false]
+    rw [delSB_append_noSlash _ _ hk.noSlash, delSB_render rest hr]
+  | .idx n :: rest, hp => by
+    have : renderPos (.idx n :: rest) = bracket (natRepr n) ++ renderPos rest := by simp [renderPos, renderSeg, natStr]
+    rw [this, delSB_append_noSlash (bracket (natRepr n)) (renderPos rest) (bracket_noSlash n), delSB_render rest hp]
+
+/-- the key `findall` reports for an exact path from a dict root is the canonical xpath -/
+theorem keyOf_flPath (k : Str) (rest : Pos) (hp : PlainPos (.key k :: rest)) :
+    keyOf (flPath [] (.key k :: rest)) = slash ++ renderPos (.key k :: rest) := by
+  have h1 : join ['/'] (flPath [] (.key k :: rest)) = k ++ renderPos rest := by
+    rw [flPath, join_flPath rest ([] ++ [k]) (by simp)]
+    simp [join]
+  have h2 := delSB_render (.key k :: rest) hp
+  have h3 : renderPos (.key k :: rest) = '/' :: (k ++ renderPos rest) := by simp [renderPos, renderSeg]
+  obtain ⟨c, r, rfl, _, hc2⟩ := PlainKey.head_ne hp.1
+  rw [h3, delSB] at h2
+  have hh : ((c :: r) ++ renderPos rest).head? ≠ some '[' := by simp [hc2]
+  simp only [hh, and_false, if_false] at h2
+  simp only [keyOf, h1, slash, h3]
+  simpa using h2
+
+/-! ### normalisation of a canonical path -/
+
+/-- the text after `replace("[", "/[")`: every step is preceded by one '/' -/
+def renderIns (p : Pos) : Str := p.flatMap (fun s => '/' :: tokOf s)
+
+theorem insLB_append (a b : Str) : insLB (a ++ b) = insLB a ++ insLB b := by
+  simp [insLB, List.flatMap_append]
+
+theorem insLB_id (s : Str) (h : ∀ c ∈ s, c ≠ '[') : insLB s = s := by
+  induction s with
+  | nil => rfl
+  | cons c s ih =>
+    have hc : c ≠ '[' := h c (by simp)
+    have := ih (fun x hx => h x (by simp [hx]))
+    simp only [insLB, List.flatMap_cons, hc, if_false] at this ⊢
+    simp [this]
+
+theorem PlainKey.noLB {k : Str} (h : PlainKey k) : ∀ c ∈ k, c ≠ '[' :=
+  fun c hc => (plainChar_ne (h.chars c hc)).2.1
+
+theorem insLB_bracket (n : Nat) : insLB (bracket (natRepr n)) = '/' :: bracket (natRepr n) := by
+  have h1 : insLB (natRepr n) = natRepr n := insLB_id _ (natStr_noLB n)
+  have : bracket (natRepr n) = ['['] ++ natRepr n ++ [']'] := by simp [bracket]
+  rw [this, insLB_append, insLB_append, h1]
+  simp [insLB]
+
+theorem insLB_render : ∀ (p : Pos), PlainPos p → insLB (renderPos p) = renderIns p
+  | [], _ => rfl
+  | .key k :: rest, hp => by
+    have : renderPos (.key k :: rest) = ['/'] ++ k ++ renderPos rest := by simp [renderPos, renderSeg]
+    rw [this, insLB_append, insLB_append, insLB_id k (PlainKey.noLB hp.1), insLB_render rest hp.2]
+    simp [renderIns, tokOf, insLB]
+  | .idx n :: rest, hp => by
+    have : renderPos (.idx n :: rest) = bracket (natRepr n) ++ renderPos rest := by simp [renderPos, renderSeg, natStr]
+    rw [this, insLB_append, insLB_bracket, insLB_render rest hp]
+    simp [renderIns, tokOf]
+
+theorem replSS_cons_ne (c : Char) (s : Str) (h : c ≠ '/') : replSS (c :: s) = c :: replSS s := by
+  rw [replSS]
+  intro rest hc _; exact absurd hc h
+
+theorem replSS_slash_ne (c : Char) (s : Str) (h : c ≠ '/') : replSS ('/' :: c :: s) = '/' :: replSS (c :: s) := by
+  rw [replSS]
+  intro rest _ hc; simp at hc; exact absurd hc.1 h
+
+theorem replSS_append_noSlash (s t : Str) (h : ∀ c ∈ s, c ≠ '/') : replSS (s ++ t) = s ++ replSS t := by
+  induction s with
+  | nil => rfl
+  | cons c s ih =>
+    rw [List.cons_append, replSS_cons_ne c _ (h c (by simp)), ih (fun x hx => h x (by simp [hx]))]
+    rfl
+
+/-- a token of an exact path: non-empty, no '/', does not start with '/' -/
+theorem tokOf_facts {s : Seg} (hs : PlainPos [s]) :
+    (∀ c ∈ tokOf s, c ≠ '/') ∧ ∃ c r, tokOf s = c :: r := by
+  cases s with
+  | key k =>
+    obtain ⟨c, r, hk, _, _⟩ := PlainKey.head_ne hs.1
+    exact ⟨hs.1.noSlash, c, r, hk⟩
+  | idx n => exact ⟨bracket_noSlash n, '[', _, rfl⟩
+
+theorem replSS_renderIns : ∀ (p : Pos), PlainPos p → replSS (renderIns p) = renderIns p
+  | [], _ => rfl
+  | s :: rest, hp => by
+    have hs : PlainPos [s] := by cases s <;> simp_all [PlainPos]
+    have hr : PlainPos rest := by cases s <;> simp_all [PlainPos]
+    obtain ⟨hno, c, r, hcr⟩ := tokOf_facts hs
+    have hc : c ≠ '/' := hno c (by rw [hcr]; simp)
+    have : renderIns (s :: rest) = '/' :: (tokOf s ++ renderIns rest) := by simp [renderIns]
+    rw [this, hcr, List.cons_append, replSS_slash_ne c _ hc, ← List.cons_append, ← hcr,
+      replSS_append_noSlash _ _ hno, replSS_renderIns rest hr]
+
+theorem splitChar_renderIns : ∀ (p : Pos), PlainPos p → ∀ (cur : Str), (∀ c ∈ cur, c ≠ '/') →
+    splitChar '/' (cur ++ renderIns p) = cur :: toksOf p
+  | [], _, cur, hc => by simp [renderIns, toksOf, splitChar_no_delim '/' cur hc]
+  | s :: rest, hp, cur, hc => by
+    have hs : PlainPos [s] := by cases s <;> simp_all [PlainPos]
+    have hr : PlainPos rest := by cases s <;> simp_all [PlainPos]
+    have : renderIns (s :: rest) = '/' :: (tokOf s ++ renderIns rest) := by simp [renderIns]
+    rw [this, splitChar_append '/' cur _ hc, splitChar_renderIns rest hr _ (tokOf_facts hs).1]
+    simp [toksOf]
+
+theorem toksOf_nonempty : ∀ (p : Pos), PlainPos p → (toksOf p).filter (fun t => !t.isEmpty) = toksOf p
+  | [], _ => rfl
+  | s :: rest, hp => by
+    have hs : PlainPos [s] := by cases s <;> simp_all [PlainPos]
+    have hr : PlainPos rest := by cases s <;> simp_all [PlainPos]
+    obtain ⟨_, c, r, hcr⟩ := tokOf_facts hs
+    simp only [toksOf, List.map_cons, List.filter_cons, hcr, List.isEmpty_cons, Bool.not_false, if_true]
+    have := toksOf_nonempty rest hr
+    simp only [toksOf] at this
+    rw [this]
+
+/-- **string layer of the exact-path theorem**: `findall` turns the canonical xpath of a position
+below a dict root into one token per key and one per index -/
+theorem tokens_render (k : Str) (rest : Pos) (hp : PlainPos (.key k :: rest)) :
+    tokens (slash ++ renderPos (.key k :: rest)) = toksOf (.key k :: rest) := by
+  obtain ⟨c, r, rfl, hc1, hc2⟩ := PlainKey.head_ne hp.1
+  have hform : slash ++ renderPos (.key (c :: r) :: rest) = '/' :: '/' :: c :: (r ++ renderPos rest) := by
+    simp [slash, renderPos, renderSeg]
+  have hnorm : normExpr (slash ++ renderPos (.key (c :: r) :: rest)) = (c :: r) ++ renderPos rest := by
+    rw [hform]
+    simp [normExpr, startsWith, hc1]
+  unfold tokens
+  rw [hnorm, insLB_append, insLB_id _ (PlainKey.noLB hp.1), insLB_render rest hp.2,
+    replSS_append_noSlash _ _ hp.1.noSlash, replSS_renderIns rest hp.2,
+    splitChar_renderIns rest hp.2 _ hp.1.noSlash]
+  have := toksOf_nonempty (.key (c :: r) :: rest) hp
+  simpa [toksOf, tokOf] using this
+
+theorem tokens_root : tokens slash = [] := by decide
 
 end N0.FindAll
